@@ -1,5 +1,6 @@
 import GeomV.C13.Model
 import GeomV.C13.Spec
+import GeomV.C13.FloatModel
 /-!
 Driver for C13.  `geomv_c13 judge` reads lines
   `simp <gen-class> <tol-hex> <GEOM> => ok <GEOM> same|mutated [members <GEOM>] | panic … | timeout … | crash …`
@@ -54,11 +55,23 @@ def inBudget (tolR : Rat) (df : Float) (d2 : Rat) : Bool :=
     decide (ae ≤ bandEps / 2 * d2 + bandEps / 2 * (tolR * tolR))
   | none => false
 
+/-- the one hypothesis `ProofsBudget.C13_float_test_exact_rne` makes about the hardware, checked for the float
+distance `df` of the replica: `df ≥ 0` and `df²` within `(1 ± 2^-52)²` of `fsumR rneM` — the argument of `math.Sqrt`
+computed with the FORMAL IEEE rounding (`rneM = C02.rne`, bit-level roundTiesToEven of C17) after every operation.
+It fails if the hardware arithmetic is not roundTiesToEven operation by operation (fused multiply-add, extended
+precision) or the square root is off by more than an ulp. -/
+def sqrtOK (df : Float) (pk pi pj : P) : Bool :=
+  match bitsToRat df.toBits with
+  | some q => sqrtHyp u52 (fsumR rneM pk pi pj) q
+  | none => false
+
 /-- Tie test for one distance comparison of the model: `(tie, far)`.  The float replica decides; the
 exact comparison is evaluated when the float distance is within 1e-6·tol of `tol`.  Outside that
 band float and exact agree PROVIDED the rounding error of the squared distance is within the
 budget of `C13_neartie_band_sound`; for curves of up to 64 vertices (`chk`) the budget is measured
-for every test, and a test outside it makes the case a near-tie as well.  (For longer curves the
+for every test, and a test outside it makes the case a near-tie as well; so does a test whose float distance
+is not the one the formal IEEE model allows (`sqrtOK`; evaluated for curves of up to 20 vertices — exact
+big-number arithmetic, about 1 ms per test).  (For longer curves the
 budget is not measured; a disagreement there shows up as a difference between the exact model run
 and the implementation and is reported.) -/
 def isTie (chk : Bool) (tolR : Rat) (tolF : Float) (cv : Curve) (k i j : Nat) : Bool × Bool :=
@@ -76,7 +89,8 @@ def isTie (chk : Bool) (tolR : Rat) (tolF : Float) (cv : Curve) (k i j : Nat) : 
     | _, _, _ => (false, fl)
   else if chk && tolR ≥ 0 then
     match cv.r[k]?, cv.r[i]?, cv.r[j]? with
-    | some pk, some pi, some pj => (!(inBudget tolR df (distSq pk pi pj)), fl)
+    | some pk, some pi, some pj =>
+      (!(inBudget tolR df (distSq pk pi pj)) || (cv.r.length ≤ 20 && !(sqrtOK df pk pi pj)), fl)
     | _, _, _ => (false, fl)
   else (false, fl)
 
